@@ -334,6 +334,7 @@ func run(c *engine.Ctx) {
 			c.Report(v)
 		}
 	}
+	runDerived(c)
 	all := specs(c.Quick())
 	comb := gen.Compile(combinedModule(all), gen.Options{})
 	if !comb.OK() {
@@ -390,6 +391,9 @@ func run(c *engine.Ctx) {
 }
 
 func replay(c *engine.Ctx, sub string, raw json.RawMessage) []engine.Violation {
+	if sub == "derived" {
+		return replayDerived(raw)
+	}
 	var r rec
 	if json.Unmarshal(raw, &r) != nil {
 		return []engine.Violation{{Key: "harness-bad-replay-file"}}
